@@ -61,7 +61,8 @@ func (ct Ciphertext) CopyNew() *Ciphertext {
 }
 
 // Copy copies the input element and its parameters on the target element.
-func (ct Ciphertext) Copy(ctxCopy *Ciphertext) {
+func (ct *Ciphertext) Copy(ctxCopy *Ciphertext) {
+	// (pointer receiver: a target without metadata receives its own)
 	ct.Element.Copy(&ctxCopy.Element)
 }
 
